@@ -162,9 +162,15 @@ class Section(Entity):
                     raise TypeError("Array contains inconsistent values.")
         shape = (len(vals),)
 
-        prop = Property.create_new(self.file, self, properties,
-                                   name, dtype, shape, oid)
-        prop.values = vals
+        try:
+            prop = Property.create_new(self.file, self, properties,
+                                       name, dtype, shape, oid)
+            prop.values = vals
+        except Exception:
+            # do not leave an empty property behind
+            if name in properties:
+                del properties[name]
+            raise
 
         return prop
 
